@@ -25,7 +25,7 @@ from vyper.venom.basicblock import IRLiteral, IROperand, IRVariable
 
 from .buffer import Ptr
 from .calling_convention import returns_stack_count
-from .context import Constancy, VenomCodegenContext
+from .context import Constancy, VenomCodegenContext, _same_memory_layout
 from .expr import Expr
 from .value import VyperValue
 
@@ -946,7 +946,7 @@ class Stmt:
             ret_src_typ is not None
             and not ret_typ._is_prim_word
             and not (isinstance(ret_typ, _BytestringT) and isinstance(ret_src_typ, _BytestringT))
-            and ret_src_typ != ret_typ
+            and not _same_memory_layout(ret_src_typ, ret_typ)
             and ret_val is not None
         ):
             normalized = self.ctx.new_temporary_value(ret_typ)
